@@ -15,6 +15,8 @@ func init() {
 			// every member of a chain is a stream of its own: the container checks must have the exact
 			// relations (an empty member with zero records is valid) and LZMA2 chunk effects
 			ruleXZReaderChecks(c, r, "")
+			// the per-block check the reader compares is the little-endian digest of the specification
+			ruleCheckEncoding(c, r, "")
 			{
 				t := getChunkTables(c, r, "")
 				ruleStartChunkEffects(c, r, t, "")
